@@ -173,6 +173,18 @@ def concretise(qualname, model):
             args.append(v)
         elif base == "bool":
             args.append(bool(model.get(name)))
+        elif base == "Cell":
+            v = model.get(name)
+            if not isinstance(v, (tuple, list)) or len(v) != 2:
+                return None
+            args.append(tuple(v))
+        elif base == "Seq":
+            v = model.get(name)
+            if not isinstance(v, list):
+                return None
+            args.append(tuple(v))
+        elif base == "none":
+            args.append(None)
         elif base.startswith("Perm*"):
             items = []
             for i in range(int(base[5:])):
